@@ -7,6 +7,7 @@ import (
 	"fmt"
 	hedzrstates "github.com/hedzr/is/states"
 	"io"
+	"io/fs"
 	stdslog "log/slog"
 	"os"
 	"strings"
@@ -346,6 +347,21 @@ func (w c01sickW) Write(p []byte) (int, error) {
 	return len(p) / 2, nil
 }
 
+// c01closedOnceW hands everything to the destination behind it; for the first record it reports a wrapped os.ErrClosed as well.
+type c01closedOnceW struct {
+	inner io.Writer
+	seen  bool
+}
+
+func (w *c01closedOnceW) Write(p []byte) (int, error) {
+	n, err := w.inner.Write(p)
+	if !w.seen {
+		w.seen = true
+		return n, &fs.PathError{Op: "write", Path: "app.log", Err: os.ErrClosed}
+	}
+	return n, err
+}
+
 // c01table: one registry per case index (own child process, the registry cannot be reset).
 func c01table(c *Ctx) {
 	eps := entryPoints()
@@ -426,6 +442,10 @@ func c01table(c *Ctx) {
 				} else {
 					l.SetWriter(w1).SetErrorWriter(w2).AddLevelWriter(slog.InfoLevel, w3)
 				}
+			} else if idx%3 == 0 && idx > 0 {
+				// every destination stores its FIRST record and reports "file already closed" for it (wrapped, as a log file
+				// in the middle of its rotation does) - and works ever after: later admitted records still arrive
+				l.SetWriter(&c01closedOnceW{inner: w1}).SetErrorWriter(&c01closedOnceW{inner: w2}).AddLevelWriter(slog.InfoLevel, &c01closedOnceW{inner: w3})
 			} else {
 				l.SetWriter(w1).SetErrorWriter(w2).AddLevelWriter(slog.InfoLevel, w3)
 			}
